@@ -8,7 +8,7 @@ ID = "C03"
 LEVEL = "exploration"
 RULE = ("same-size families: every multiset of n files (n<=3 quick, <=5 thorough) over the variants {base, flipped at 0, "
         "at L/2, at L-1, at 4096} for L in {1,4096,4097,65536,131073}, laid out over 1-3 directories and 1-2 roots (one layout puts the second root on a loop-mounted ext4 image, i.e. a second device with its own hashing pool; one puts the files on two fresh tmpfs instances below one root, where the k-th files have equal inode numbers on different file systems), with "
-        "optional hard links and repeated / overlapping roots; x replication filter {default, --rf-over 0/2/3, "
+        "optional hard links and repeated / overlapping roots; plus three trees whose paths concatenate to the same bytes (ab/c vs a/bc; as hard links, plain copies and directories, also with -L / -H); x replication filter {default, --rf-over 0/2/3, "
         "--rf-under 2/3, --unique} x prefix/suffix sizes, disk kind, transform {keep, shrink to two bytes (also with -H)} (thorough: hash, cache, -t 1). "
         "Oracle: independent partition of the scanned files by bytes + replica count + strict filter; the reported set of "
         "path sets must be equal; no path twice; no unscanned path. Non-trivial = expected result has at least one "
@@ -120,6 +120,23 @@ def cases(tier, seed):
                         m2 = dict(meta, tr=["shrink", "pipe"], extra=extra + ml)
                         out.append({"tree": tree, "roots": roots, "args": args + ml + G.transform_args("shrink", "pipe"),
                                     "env": {"FCLONES_VERIF_DISK_KIND": disk}, "meta": m2})
+    # paths whose components concatenate to the same bytes (ab/c vs a/bc): as hard links of one file, as plain
+    # duplicates, and as directories entered with -L
+    collide = [
+        [{"p": "r1/ab/c", "k": "file", "c": ["base", 4097, 0]}, {"p": "r1/a/bc", "k": "hard", "to": "r1/ab/c"},
+         {"p": "r1/x/f", "k": "file", "c": ["base", 4097, 0]}, {"p": "r1/y/g", "k": "file", "c": ["flip", 4097, 0, 4096]}],
+        [{"p": "r1/ab/c", "k": "file", "c": ["base", 10, 0]}, {"p": "r1/a/bc", "k": "file", "c": ["base", 10, 0]},
+         {"p": "r1/abc", "k": "file", "c": ["base", 10, 0]}],
+        [{"p": "r1/ab/c/f1", "k": "file", "c": ["base", 10, 0]}, {"p": "r1/a/bc/f2", "k": "file", "c": ["base", 10, 0]},
+         {"p": "r1/a/b/c/f3", "k": "file", "c": ["base", 10, 0]}, {"p": "r1/abc/f4", "k": "file", "c": ["flip", 10, 0, 9]}],
+    ]
+    for ti, tree in enumerate(collide):
+        for flt in FILTERS:
+            for more in ([], ["-H"], ["-L"], ["-L", "-H"]):
+                meta = {"L": tree[0]["c"][1], "combo": [ti], "layout": "colliding_concatenation", "hard": ti == 0,
+                        "filter": " ".join(flt) or "default", "disk": "ssd", "extra": more, "tr": None}
+                out.append({"tree": tree, "roots": ["r1"], "args": ["--min", "0"] + flt + more,
+                            "env": {"FCLONES_VERIF_DISK_KIND": "ssd"}, "meta": meta})
     return out
 
 
